@@ -7,18 +7,25 @@
    "skeleton" and ThickSegment::intersection is the scanline of the Bresenham line between its two vertices.  Hence the three
    segments of the stroke are the three Bresenham lines between the CLOCKWISE-ordered vertices v1->v2, v2->v0, v0->v1.
 
-   OPEN (C19_join_tri_outline_w1): pixels() = exactly the union of these three lines.  What is missing is the merge step of
-   triangle::ScanlineIntersections::edge_intersections: it keeps at most two scanlines per row and silently drops a third one
-   that touches neither; that cannot happen for three edges of one triangle (all three meet a row only in the row of the
-   middle vertex, where two of them share that vertex's pixel), but this needs "all points of a Bresenham line in one row are
-   consecutive" and is not proved here.  Inside / Outside alignment use StrokeOffset::Right / Left, for which
-   extents with thickness 1 is not covered by a lemma yet.  The executable model of the whole pipeline is compared with the
-   implementation for widths 0, 1 and all alignments (suites join_tri_pixels / join_tri_rects).
+   C19_join_tri_outline_w1 (Center alignment) is the full statement: pixels() = exactly the union of these three lines.  The
+   merge step of triangle::ScanlineIntersections::edge_intersections keeps at most two scanlines per row and silently drops a
+   third one that touches neither; for three edges of one triangle all three meet a row only in the row of a vertex whose y is
+   the median, where two of them share that vertex's pixel, so nothing is dropped (Proofs/JoinOutline.v, with the row lemmas
+   of the tri builder's Proofs/Triangle.v - line_row_run and the scanline hull - generalised to lines of any direction).
+   Every row between the top and the bottom vertex has a pixel, so the un-fused scanline iterator never stops early.
+
+   Inside / Outside alignment with width 1: the implementation takes the same path (extents with thickness 1 is the line itself
+   for StrokeOffset::Left / Right as well - checked by the suites joinh_extents / join_tri_pixels), but the lemma
+   "parallels l 1 so" exists for StrokeOffset::None only (line builder), so the theorem is stated for Center.
+   Inside alignment has one more case: when Triangle::is_collapsed holds (a degenerate join, or the inner corner of a join
+   on the wrong side of the opposite edge: always for colinear triangles) every row is Triangle::scanline_intersection of the
+   clockwise triangle painted in the stroke colour, i.e. the FILLED triangle between the (y,x)-sorted Bresenham edges (for a
+   colinear triangle: the single line from the first to the last vertex in (y,x) order), not the three clockwise lines.
 
    Polylines: width <= 1 never reaches this machinery (polyline/styled.rs: draw_iter over points(), StyledIter::Thin), so
    there is no `polyline_w1_is_thin` statement to make here; it is C19_polyline_* of the tri builder. *)
 From EG Require Import Base.Prelude Model.Geometry Model.Line Model.Thickline Model.Join Model.JoinTri.
-From EG Require Import Proofs.Join Proofs.JoinTri Proofs.JoinW1.
+From EG Require Import Proofs.Join Proofs.JoinTri Proofs.JoinW1 Proofs.JoinTriDraw Proofs.JoinOutline.
 Set Default Timeout 60.
 
 Theorem C19_join_extents_w1 : forall l, extents l 1 SONone = Some (l, l).
@@ -41,6 +48,26 @@ Theorem C19_join_tri_outline_w1_partial : forall ct idx y,
   jt_edge_scanline ct 1 SONone idx y =
   Some (bresenham_intersection (sl_new_empty y) (L (vtx ct (idx + 1)) (vtx ct (idx + 2)))).
 Proof. exact jt_edge_scanline_w1. Qed.
+
+(* the full statement, Center alignment: as a set, pixels() of a triangle with stroke width 1 and no fill is the union of the
+   three Bresenham lines between the clockwise-ordered vertices (a, b, c) = jt_sorted_clockwise t: b->c, c->a, a->b; every item
+   carries the stroke colour.  Vertices within +-2^29. *)
+Theorem C19_join_tri_outline_w1 : forall t, tri_big t ->
+  let '(a, b, c) := jt_sorted_clockwise t in
+  exists px, jt_pixels t 1 Style.Center None = Some px /\
+    (forall pc, In pc px -> snd pc = 1) /\
+    (forall p, In p (map fst px) <-> In p (line_points (L b c)) \/ In p (line_points (L c a)) \/ In p (line_points (L a b))).
+Proof. exact tri_outline_w1. Qed.
+
+(* the row lemmas behind it, for lines of any direction *)
+Theorem C19_join_line_row_is_a_run : forall l a b x y,
+  In (P a y) (line_points l) -> In (P b y) (line_points l) -> a <= x <= b -> In (P x y) (line_points l).
+Proof. exact line_row_run_any. Qed.
+
+Theorem C19_join_line_meets_every_row : forall l y,
+  Z.min (py (l_start l)) (py (l_end l)) <= y <= Z.max (py (l_start l)) (py (l_end l)) ->
+  exists p, In p (line_points l) /\ py p = y.
+Proof. exact line_row_nonempty_any. Qed.
 
 (* non-vacuity: a triangle given counter-clockwise; its outline (width 1, Center, no fill) has 4 + 5 + 5 - 3 = 11 pixels *)
 Example C19_join_nonvacuous :
